@@ -98,6 +98,7 @@ func runOne(prog *Program, spec *propSpec, tier string, seed int, start time.Tim
 				st = "FAIL"
 			}
 			fmt.Printf("  %s %-8s %-60s %s  %s\n", st, o.Rule, o.Construct, o.Pos, o.Detail)
+			_ = o.Requires
 		}
 	}
 	return c.finish(spec, tier, seed, start, extra)
@@ -105,8 +106,7 @@ func runOne(prog *Program, spec *propSpec, tier string, seed int, start time.Tim
 
 // failAll writes a failing evidence file when the program could not be loaded.
 func failAll(id, tier string, seed int, start time.Time, msg string) int {
-	vdir := verifDir()
-	evdir := filepath.Join(vdir, "evidence")
+	evdir := evidenceDir()
 	os.MkdirAll(filepath.Join(evdir, "violations"), 0o755)
 	path := filepath.Join(evdir, "violations", id+"-1.json")
 	data, _ := json.MarshalIndent(map[string]interface{}{"property": id, "rule": "infra", "detail": msg}, "", " ")
